@@ -118,6 +118,19 @@ def calc_part(ctx, fails):
             r = zc.risk_ci(t[0], t[0] + t[1], alpha=a)
             rc[a] = (float(r.point_estimate), float(r.lower_bound), float(r.upper_bound), float(r.standard_error))
         fam['risk_ci'] = (False, rc)
+        # the other documented interval of risk_ci: SE^2 = a*b / (n^2 (n - 1)), limits = risk -/+ z * SE
+        rh = {}
+        for a in ALPHAS:
+            r = zc.risk_ci(t[0], t[0] + t[1], alpha=a, confint='hypergeometric')
+            rh[a] = (float(r.point_estimate), float(r.lower_bound), float(r.upper_bound), float(r.standard_error))
+        fam['risk_ci[hypergeometric]'] = (False, rh)
+        nn_ = t[0] + t[1]
+        if nn_ > 1:
+            ctx.disagreements_checked += 1
+            want = Fraction(t[0] * t[1], nn_ * nn_ * (nn_ - 1))
+            if not close(rh[0.05][3] ** 2, want, TOL_ARITH):
+                fails.append((0, 'calc.risk_ci.hypergeometric.se', "risk_ci(%d, %d, confint='hypergeometric') SE^2 %r is not a*b/(n^2 (n-1)) = %s"
+                              % (t[0], nn_, rh[0.05][3] ** 2, want), {'part': 'calc', 'table': t}))
         work.append((t, rt, fam))
         exprs.append('(Qflat (measures4 %s), Qflat (measures_rate %s))' % (' '.join(qlit(x) for x in t), ' '.join(qlit(x) for x in rt)))
     res, errs = coq_eval(ctx, 'c06calc', IMPORTS, exprs, shard=150)
